@@ -154,6 +154,14 @@ Theorem C01_hashed_args_reach_hash_key :
 Proof. exact hashed_args_reach_hash_key. Qed.
 Print Assumptions C01_hashed_args_reach_hash_key.
 
+(* Inputs that gcc / clang treat as ALREADY PREPROCESSED (.i .ii .mi .mii) or as assembler (.s .S .sx) have no language
+   in Language::from_file_name (table transcribed by the translator): without an explicit -x such a request is never
+   re-preprocessed by sccache, it is handed back to the client. *)
+Theorem C01_preprocessed_suffixes_passthrough :
+  forallb (fun e => match assoc e ext_lang_table with None => true | Some _ => false end) AlreadyPreprocessed = true.
+Proof. exact preprocessed_suffixes_have_no_language. Qed.
+Print Assumptions C01_preprocessed_suffixes_passthrough.
+
 (* Open findings, as theorems about the current code (witnesses by computation). *)
 Theorem C01_dep_target_without_md_dropped :
   exists argv p, parse_arguments the_tables gcc_env argv = ROk p /\ In (bs "-MT") argv /\
